@@ -323,7 +323,12 @@ def concrete_playback(slot, prop, h, logdir, failed_checks=()):
     data, lpath, rc, dt = run_kani(slot, prop, [h], 1, logdir,
                                    extra=["-Z", "concrete-playback", "--concrete-playback", "print"])
     txt = open(lpath, errors="replace").read()
-    tests = [(m.group(1), m.group(0)) for m in PLAYBACK_RE.finditer(txt)]
+    tests = []
+    seen_names = set()
+    for m in PLAYBACK_RE.finditer(txt):
+        if m.group(1) not in seen_names:  # Kani prints the same test once per failed check
+            seen_names.add(m.group(1))
+            tests.append((m.group(1), m.group(0)))
     if not tests:
         return {"reproduced": None, "detail": "kani produced no concrete playback test", "tests": []}
     modfile = os.path.join(slot.scratch, "src", "__verif", h["module"] + ".rs")
@@ -356,6 +361,10 @@ def concrete_playback(slot, prop, h, logdir, failed_checks=()):
                 m = re.search(r"panicked at ([^\n]*)\n([^\n]*)", o)
                 if m:
                     panic = (m.group(1) + " " + m.group(2))[:300]
+                    if status in ("error", "not-run"):
+                        # the test panicked and the process then aborted while unwinding (harnesses keep
+                        # stack-backed Vecs that must not be freed): the panic itself is the test failure
+                        status = "failed"
                 results.append({"test": name, "profile": profile, "status": status, "panic": panic,
                                 "tail": o[-1500:] if status in ("error", "not-run") else ""})
     finally:
